@@ -139,11 +139,18 @@ def units(tier):
                 for d in delays:
                     for space in ("box", "disc0", "disc1"):
                         out.append((nbars, L, d, space, list(extras)))
-    if tier == "thorough":
-        for L in (0, 30):
-            for d in (0, 1, 4, 5):
-                for space in ("box", "disc1"):
-                    out.append((7, L, d, space, []))
+    # two quotes for the same contract inside ONE latency window / one gap (the LAST one prices the execution)
+    for L in (30, 4.1):
+        pos = extra_positions(grid(nbars), L)
+        per_gap = len(pos) // (nbars - 1)
+        for g in range(nbars - 1):
+            idx = list(range(g * per_gap, (g + 1) * per_gap))
+            for pair in itertools.combinations(idx, 2):
+                for d in (0, 2):
+                    out.append((nbars, L, d, "box", list(pair)))
+    # long episodes: the delay queue must not wrap, drop or repeat decisions after many steps
+    for d, space in ((3, "box"), (2, "disc1")) if tier == "quick" else ((0, "box"), (1, "disc1"), (3, "box"), (4, "disc1"), (5, "box")):
+        out.append((8 if tier == "quick" else 9, 30, d, space, []))
     return out
 
 
